@@ -62,8 +62,13 @@ func (c *SubscriptionManager) AddSubscription(remoteDevice api.DeviceRemoteInter
 	c.mux.Lock()
 	defer c.mux.Unlock()
 
+	// the client feature is compared by its connection and address, not as an object: a remote
+	// feature object is replaced whenever its entity is announced again, and its content changes
+	// with every reply and notify, so a comparison of the objects misses the existing subscription
 	for _, item := range c.subscriptionEntries {
-		if reflect.DeepEqual(item.ServerFeature, serverFeature) && reflect.DeepEqual(item.ClientFeature, clientFeature) {
+		if reflect.DeepEqual(item.ServerFeature, serverFeature) &&
+			item.ClientFeature.Device().Ski() == clientFeature.Device().Ski() &&
+			reflect.DeepEqual(item.ClientFeature.Address(), clientFeature.Address()) {
 			return fmt.Errorf("requested subscription is already present")
 		}
 	}
